@@ -244,6 +244,9 @@ func checkC08(c c08Case) error {
 		if !h.Quoted {
 			// in an expanding here-document a backslash-newline is a line continuation
 			wantBody = strings.ReplaceAll(wantBody, "cont\\\n", "cont")
+			// the newlines inside a substitution are layout of the substitution
+			// (respell writes it on one line; the tree is compared below)
+			wantBody = strings.NewReplacer("$(\nc\n)", "$(c)", "`\nc\n`", "`c`", "$((\n1\n))", "$((1))").Replace(wantBody)
 		}
 		if got := respell(r.Heredoc); got != wantBody {
 			return fmt.Errorf("%s: body %q, want %q\nsrc: %q", where, got, wantBody, c.Src)
